@@ -307,12 +307,17 @@ def main(argv):
                     undecided.append("%s: must-fail canary was accepted: axioms inconsistent or verifier not running" % u)
         # ---- Kani units
         kani_viol = []
+        kani_report = []
         for k in kani_units:
             r = results[("kani", k)]
             if r.get("undecided"):
                 undecided.append("kani %s: %s" % (k, r["undecided"]))
                 continue
             checker_cmds.append(r.get("cmd", ""))
+            kani_report.append(dict(unit=k, function_text_extracted_from=r.get("extracted", []),
+                                    transformations=r.get("transformations", []),
+                                    harnesses=[dict(name=h["name"], status=h["status"], wall_s=h.get("wall_s"), covers=h.get("covers")) for h in r["harnesses"]]))
+            trusted.add("kani stub environment: kani/%s/src/main.rs" % k)
             for h in r["harnesses"]:
                 entry = dict(name="%s::%s" % (k, h["name"]), bound=h.get("bound", ""), result=h["status"],
                              backend="kani/cbmc", wall_s=h.get("wall_s"), complete=h.get("complete", False),
@@ -370,6 +375,7 @@ def main(argv):
             functions_under_contract=fns_under_contract,
             solver_ms=smt_ms,
             bounded_checks=bounded,
+            kani_units=kani_report,
             transformations_applied=sorted(transforms),
             vacuity=vacuity_report,
             stability=stability_report,
